@@ -182,6 +182,14 @@ class NativeFn:
         return f"<native {self.name}>"
 
 
+SCOPES = []     # stack of active assumption scopes (Interp.forall_paths); cached evaluations made inside a scope carry
+                # assumptions that are discarded with it, so they are only reusable while that scope is active
+
+
+def scope_valid(stamp):
+    return len(stamp) <= len(SCOPES) and tuple(SCOPES[: len(stamp)]) == stamp
+
+
 class Stacked:
     """leading-axis stack of `n` values: element(i) for a z3 Int term i  (result of vmap / scan outputs)"""
 
@@ -190,10 +198,15 @@ class Stacked:
         self._cache = {}
 
     def at(self, i):
-        k = i.get_id() if hasattr(i, "get_id") else ("c", i)
-        if k not in self._cache:
-            self._cache[k] = self.fn(i)
-        return self._cache[k]
+        if isinstance(i, int):
+            i = z3.IntVal(i)
+        k = i.get_id()
+        hit = self._cache.get(k)
+        if hit is not None and scope_valid(hit[2]) and hit[0].eq(i):
+            return hit[1]
+        v = self.fn(i)
+        self._cache[k] = (i, v, tuple(SCOPES))     # keeps the index term alive (ids are not reused) + scope of validity
+        return v
 
     def __repr__(self):
         return f"Stacked(n={self.n},{self.tag})"
